@@ -489,6 +489,10 @@ def dispatch(prog: Program, rep) -> None:
             local_var = isinstance(v.func, ast.Name) and any(isinstance(n_, ast.Name) and n_.id == v.func.id and isinstance(n_.ctx, ast.Store) for n_ in own_nodes(f.node))
             if any(isinstance(t, ClassInfo) for t in tgt) and not local_var:
                 sites.append((r, dotted(v.func) or ""))
+            elif isinstance(v.func, ast.Name) and isinstance(ff.resolved(r, v.func), (ast.Name, ast.Attribute)) \
+                    and isinstance(prog.resolve_expr_static(f.module, ff.resolved(r, v.func)), ClassInfo):
+                # `cls = C` in this very branch, then `return cls(..)`: the return is the selection site
+                sites.append((r, U(ff.resolved(r, v.func))))
             elif isinstance(v.func, ast.Name):
                 for q in ff.order:
                     if isinstance(q.stmt, ast.Assign) and len(q.stmt.targets) == 1 and isinstance(q.stmt.targets[0], ast.Name) and q.index < ff.at(r).index:
